@@ -67,7 +67,10 @@ Resolve(s) ==
 \* a resolved name that begins with two separators (the URL parser takes a backslash for a slash) is a
 \* network-path reference: joined to the base URL it names another authority, or no valid URL at all.  The
 \* fetch may then fail (JoinUrl); if it succeeds, what is saved is digest-checked and lands inside.
-Authority(r) == Len(r) >= 2 /\ r[1] \in {"/", "\\"} /\ r[2] \in {"/", "\\"}
+\* (URL parsing first drops leading spaces and C0 control characters: "^" stands for U+0001)
+RECURSIVE Trimmed(_)
+Trimmed(r) == IF r # <<>> /\ r[1] \in {" ", "^"} THEN Trimmed(Tail(r)) ELSE r
+Authority(r) == LET t == Trimmed(r) IN Len(t) >= 2 /\ t[1] \in {"/", "\\"} /\ t[2] \in {"/", "\\"}
 SaveVerdict(s, digestPrefix) ==
   LET rv == Resolve(s) IN
   IF ~rv.ok THEN "invalid-name"
